@@ -207,7 +207,10 @@ def nextPacketID (c : Client) (maxID : Nat) : Option Nat :=
 def renderPublish (ver : Nat) (m : Msg) (meSet : Bool) : String :=
   let si := "+".intercalate ((m.subIds.filter (· > 0)).map toString)
   let v5 := ver == 5
-  s!"PUB:q{m.qos}:d{b01 m.dup}:r{b01 m.retain}:id{m.id}:t={hexStr m.topic}:p={hexStr m.payload}:si={if v5 then si else ""}:ta={if v5 && m.alias > 0 then toString m.alias else "-"}:me{if v5 && meSet then "+" else "0"}"
+  -- the independent decoder marks a PUBLISH whose topic name contains a wildcard (a will topic is not
+  -- validated by ConnectValidate, so `+/b` or `a/#` can be published and retained)
+  let bad := if m.topic.contains 43 || m.topic.contains 35 then "!bad(publish-topic-contains-wildcard)" else ""
+  s!"PUB:q{m.qos}:d{b01 m.dup}:r{b01 m.retain}:id{m.id}:t={hexStr m.topic}:p={hexStr m.payload}:si={if v5 then si else ""}:ta={if v5 && m.alias > 0 then toString m.alias else "-"}:me{if v5 && meSet then "+" else "0"}{bad}"
 
 def ackName (t : Nat) : String :=
   if t == 4 then "PUBACK" else if t == 5 then "PUBREC" else if t == 6 then "PUBREL" else "PUBCOMP"
